@@ -15,6 +15,13 @@ Proof.
 Qed.
 Print Assumptions c09_ratio_deterministic.
 
+(** ... in the form the harness judges observations by: wherever the ratio sampler answers, for
+    every parent (any flags, remote or not), its decision is its parentless decision for the trace id. *)
+Theorem c09_ratio_parent_independent : forall r psc t,
+  parent_independent (code (dec (should_sample (SRatio r) psc t))) (ratio_sampled r t) = true.
+Proof. intros r psc t. cbn. destruct (ratio_sampled r t); reflexivity. Qed.
+Print Assumptions c09_ratio_parent_independent.
+
 (** Monotone in the ratio: for ALL bit patterns r, r' denoting values r <= r'
     (infinities included, NaN excluded by [fle]) and ALL trace ids. *)
 Theorem c09_ratio_monotone : monotone ratio_sampled.
